@@ -87,12 +87,12 @@ theorem contract_between (l m u : Nat) :
 
 /-! ### allEqual -/
 
-theorem sound_allEqual (xs : List Nat) (hne : xs ≠ []) :
+theorem sound_allEqual (xs : List Nat) :
     Sound (prune (.allEqual xs)) (fun a => holds a (.allEqual xs) = true) := by
   intro c a hm hs
   show Keeps a (pruneAllEqual xs c)
   cases xs with
-  | nil => exact absurd rfl hne
+  | nil => exact Keeps.some hm
   | cons x0 rest =>
     simp only [holds, List.all_eq_true, beq_iff_eq] at hs
     have hall : ∀ x ∈ x0 :: rest, a x = a x0 := by
@@ -120,7 +120,7 @@ theorem contracting_allEqual (xs : List Nat) :
   show Good xs c c'
   change pruneAllEqual xs c = some c' at h
   cases xs with
-  | nil => simp only [pruneAllEqual] at h; cases h
+  | nil => simp only [pruneAllEqual] at h; cases h; exact Good.refl _ _
   | cons x0 rest =>
     simp only [pruneAllEqual] at h
     split at h
@@ -136,7 +136,7 @@ theorem checking_allEqual (xs : List Nat) :
   intro c c' a hf hm h
   change pruneAllEqual xs c = some c' at h
   cases xs with
-  | nil => simp only [pruneAllEqual] at h; cases h
+  | nil => rfl
   | cons x0 rest =>
     have hf : FixedOn (x0 :: rest) c.st := hf
     simp only [pruneAllEqual] at h
@@ -162,7 +162,7 @@ theorem resp_allEqual (xs : List Nat) :
   have hag : Agree xs c1 c2 := hag
   show RelO xs (pruneAllEqual xs c1) (pruneAllEqual xs c2)
   cases xs with
-  | nil => exact RelO.none
+  | nil => exact RelO.some hag
   | cons x0 rest =>
     have hrest : ∀ x ∈ rest, x ∈ x0 :: rest := fun x h => List.mem_cons_of_mem _ h
     simp only [pruneAllEqual]
@@ -178,16 +178,14 @@ theorem resp_allEqual (xs : List Nat) :
     intro x hx d1 d2 hd
     exact RelO.bind (setMinG_resp _ hx hd) (fun e1 e2 he => setMaxG_resp _ hx he)
 
-theorem contract_allEqual (xs : List Nat) (hne : xs ≠ []) :
+theorem contract_allEqual (xs : List Nat) :
     Contract (prune (.allEqual xs)) (fun a => holds a (.allEqual xs) = true)
       (triggers (.allEqual xs)) :=
-  ⟨sound_allEqual xs hne, contracting_allEqual xs, checking_allEqual xs, resp_allEqual xs⟩
+  ⟨sound_allEqual xs, contracting_allEqual xs, checking_allEqual xs, resp_allEqual xs⟩
 
-/-- finding: on the empty list the propagator fails although the (vacuous) constraint holds,
-so soundness needs `xs ≠ []` -/
-theorem allEqual_empty_counterexample :
-    prune (.allEqual []) { st := fun _ => [0] } = none ∧ holds (fun _ => 0) (.allEqual []) = true :=
-  ⟨rfl, rfl⟩
+/-- the empty list: nothing to do (before the repair `fix: AllEqual over no variables holds` the
+propagator failed here) -/
+theorem allEqual_empty (c : Ctx) : prune (.allEqual []) c = some c := rfl
 
 /-! ### `simpApply` -/
 
